@@ -402,6 +402,7 @@ Section TriangProofs.
   Lemma solve_left_spec upper a n y : tvalid upper a n -> ncols y = n ->
     (forall j, NoDup (map fst (col y j))) ->
     exists x, solve_triangular_left o u upper a y = Some x /\ nrows x = nrows y /\ ncols x = n /\
+      length (cols x) = n /\
       (forall j e, In e (col x j) -> fst e < nrows y) /\
       meq (nrows y) n (mmul o n (entry o x) (entry o a)) (entry o y).
   Proof.
@@ -413,7 +414,8 @@ Section TriangProofs.
     exists (sp_transpose x'). split; [reflexivity|].
     assert (Hx'c : ncols x' = nrows y) by reflexivity.
     assert (Hx'r : nrows x' = n) by (unfold x', solution; cbn [nrows]; rewrite nrows_transpose; apply (tv_ncols _ _ _ V)).
-    split; [exact Hx'c|]. split; [exact Hx'r|]. split.
+    split; [exact Hx'c|]. split; [exact Hx'r|]. split; [|split].
+    - cbn [sp_transpose cols]. now rewrite map_length, seq_length.
     - intros j e He. rewrite <- Hx'c. now apply (transpose_rows x' j e).
     - intros p j Hp Hj. unfold mmul.
       pose proof (solution_solves (negb upper) (sp_transpose a) n (sp_transpose y) V' Y') as Hs.
